@@ -206,7 +206,8 @@ class Runner:
     def _consumer(self, c):
         if c not in self.cons:
             cat, topics = CONSUMERS[c]
-            self.cons[c] = self.w.broker.get_consumer("q", topics, None, MessageCategory[cat])
+            # cN1 has a local prefetch window of one message (a full local queue is a state of its own)
+            self.cons[c] = self.w.broker.get_consumer("q", topics, 1 if c == "cN1" else None, MessageCategory[cat])
         return self.cons[c]
 
     def _coro(self, op):
@@ -480,8 +481,12 @@ def run_history(kind, nmsgs, consumers, hist, cancel_at=None):
             snap = {}
             if op[0] == "consume":
                 now = r.model.t * WINDOW
+                # a consumer whose prefetch window is full of unsettled messages need not deliver more
+                held_by_c = sum(1 for x_ in r.model.m.values() if x_["place"] == "held" and x_["holder"] == op[1])
+                window_full = op[1] == "cN1" and held_by_c >= 1
                 for mid in r.model.m:
-                    snap[(mid, op[1])] = r.model.deliverable(mid, op[1], now, must=True) and r.model.m[mid]["place"] != "held"
+                    snap[(mid, op[1])] = (not window_full and r.model.deliverable(mid, op[1], now, must=True)
+                                          and r.model.m[mid]["place"] != "held")
             if i == last and cancel_at is not None:
                 pre_model = json.dumps(r.model.key())
                 pre_m = {k: dict(v) for k, v in r.model.m.items()}
